@@ -63,6 +63,16 @@ def _is_classmethod(f):
     return any(isinstance(d, ast.Name) and d.id == 'classmethod' for d in f.decorator_list)
 
 
+class _Subst(ast.NodeTransformer):
+    def __init__(self, m):
+        self.m = m
+
+    def visit_Name(self, node):
+        if node.id in self.m and isinstance(node.ctx, ast.Load):
+            return copy.deepcopy(self.m[node.id])
+        return node
+
+
 class Helper:
     def __init__(self, qual, fdef, cls):
         self.qual, self.f, self.cls = qual, fdef, cls
@@ -84,6 +94,15 @@ class Helper:
         self.is_gen = _has(fdef.body, (ast.Yield, ast.YieldFrom))
         body = fdef.body
         self.expr = body[0].value if len(body) == 1 and isinstance(body[0], ast.Return) and body[0].value is not None and not self.is_gen else None
+        # straight-line helpers `t = e1; u = e2(t); return e(t, u)` are expressions too (each temporary assigned once, not a parameter)
+        if self.expr is None and not self.is_gen and len(body) >= 2 and isinstance(body[-1], ast.Return) and body[-1].value is not None \
+                and all(isinstance(x, ast.Assign) and len(x.targets) == 1 and isinstance(x.targets[0], ast.Name) for x in body[:-1]):
+            temps = [x.targets[0].id for x in body[:-1]]
+            if len(set(temps)) == len(temps) and not (set(temps) & set(self.params)):
+                m = {}
+                for x in body[:-1]:
+                    m[x.targets[0].id] = _Subst(m).visit(copy.deepcopy(x.value))
+                self.expr = _Subst(m).visit(copy.deepcopy(body[-1].value))
 
     def bind(self, call, receiver):
         """param -> argument expression"""
@@ -111,16 +130,6 @@ class Helper:
                 else:
                     raise NotInlinable(f'missing argument {p}')
         return m
-
-
-class _Subst(ast.NodeTransformer):
-    def __init__(self, m):
-        self.m = m
-
-    def visit_Name(self, node):
-        if node.id in self.m and isinstance(node.ctx, ast.Load):
-            return copy.deepcopy(self.m[node.id])
-        return node
 
 
 def _assign(target, value, at):
@@ -166,8 +175,52 @@ def _conv(stmts, target):
                 raise NotInlinable('try/else with return')
             out.append(ast.copy_location(ast.Try(body=b, handlers=hs, orelse=[], finalbody=[]), s))
             return out, allr
+        if isinstance(s, (ast.For, ast.While)) and not s.orelse:
+            # search loop with early return:  `for ..: if c: return e` + rest  ==>  `for ..: if c: T = e; break` + `else: rest`
+            # (for/else runs the else-branch exactly when the loop was not left by break) - only when the loop has no break of its own
+            # and the returns are not inside a nested loop
+            if _has(s.body, ast.Break, stop=(ast.FunctionDef, ast.ClassDef, ast.Lambda, ast.For, ast.While)):
+                raise NotInlinable('return inside a loop that also breaks')
+            for inner in s.body:
+                for x in ast.walk(inner):
+                    if isinstance(x, (ast.For, ast.While)) and _has(x, ast.Return):
+                        raise NotInlinable('return inside a nested loop')
+            new_body = _loop_returns_to_breaks(list(s.body), target)
+            r, rr = _conv(copy.deepcopy(rest), target)
+            if not rr and not (target is None):
+                r = r + [_assign(target, None, s)] if not (isinstance(target, tuple) and target[0] == 'return') else r
+            loop = copy.copy(s)
+            loop.body = new_body
+            loop.orelse = r or []
+            out.append(loop)
+            return out, False if not rr else True
         raise NotInlinable(f'return inside {type(s).__name__}')
     return out, False
+
+
+def _loop_returns_to_breaks(stmts, target):
+    out = []
+    for s in stmts:
+        if isinstance(s, ast.Return):
+            if isinstance(target, tuple) and target[0] == 'return':
+                out.append(s)
+            else:
+                out.append(_assign(target, s.value, s))
+                out.append(ast.copy_location(ast.Break(), s))
+            return out
+        if isinstance(s, (ast.FunctionDef, ast.ClassDef, ast.For, ast.While)):
+            out.append(s)
+            continue
+        if _has(s, ast.Return):
+            s = copy.copy(s)
+            for fld in ('body', 'orelse', 'finalbody'):
+                sub = getattr(s, fld, None)
+                if isinstance(sub, list) and sub and isinstance(sub[0], ast.stmt):
+                    setattr(s, fld, _loop_returns_to_breaks(list(sub), target))
+            if isinstance(s, ast.Try):
+                s.handlers = [ast.copy_location(ast.ExceptHandler(type=h.type, name=h.name, body=_loop_returns_to_breaks(list(h.body), target)), h) for h in s.handlers]
+        out.append(s)
+    return out
 
 
 class Inliner:
